@@ -540,9 +540,10 @@ def corpus_C18(tier):
         if j % 2:
             inst.update(bounds="both", x0place=["in"] * n)
         out.append(inst)
-    for j in range(8 if tier == "quick" else 120):
+    for j in range(20 if tier == "quick" else 200):
+        # an infinite / overflow-sized value enters the interpolation set mid-run: the fit fails and a soft restart follows (same run counter => rows of one run)
         inst = dict(id=830000 + j, seed=int(rng.integers(0, 2 ** 31 - 1)), n=2, m=2, prob="ros3", restarts="soft", maxunsucc=3, rhoend=1e-2, maxfun=80, diag=True,
-                    fault=dict(k=int(rng.integers(4, 30)), kind=corpus._pick(rng, ["pinf", "nan", "huge"])))
+                    fault=dict(k=int(rng.integers(4, 34)), kind=corpus._pick(rng, ["pinf", "huge"])))
         out.append(inst)
     # the radius cap: a minimiser ~1e13 away makes delta grow by very successful steps until it reaches 1e10
     for j in range(4 if tier == "quick" else 40):
